@@ -383,3 +383,45 @@ def check(ctx: Ctx) -> None:
     # the pool's Reply.run (BaseException), so it cannot unwind integrate_as_primary_thread and end serve()
     from ..report import borrow
     borrow(ctx, "C09", {"C09.e": "C07.l"})
+
+    # a failure must be *reportable*: its text travels as strict UTF-8 (C01.k), so what `_geterrortext` returns must be encodable whatever
+    # the exception's message holds (a lone surrogate from a surrogate-escaped file name, say) -- otherwise closing the channel with the
+    # error raises in the worker, the channel is never closed and the peer waits forever instead of getting RemoteError
+    with ctx.obligation("C07.m", "error-text-sendable") as ob:
+        from ..terms import evaluator as _evm, show as _showm
+        fin = repo.func(f"{GB}.BaseGateway.__init__")
+        binds = [n for n in repo.own_nodes(fin) if isinstance(n, ast.Assign) and any(unparse(t) == "self._geterrortext" for t in n.targets)]
+        ob.require(len(binds) == 1, "BaseGateway.__init__: binding of self._geterrortext not found")
+        v = binds[0].value
+        target = None
+        if isinstance(v, ast.Name) and repo.has_func(f"{GB}.{v.id}"):
+            target = repo.func(f"{GB}.{v.id}")
+        elif isinstance(v, ast.Attribute) and unparse(v.value) == "self":
+            m = repo.cls("BaseGateway").methods.get(v.attr)
+            target = repo.func(m.qualname) if m is not None else None
+        ob.require(target is not None, f"self._geterrortext is bound to `{norm(v)}`, which is not a function of gateway_base")
+        LENIENT = {"backslashreplace", "replace", "ignore", "xmlcharrefreplace", "namereplace"}
+
+        def sendable(t) -> bool:
+            # <x>.encode(codec, lenient).decode(codec)
+            if t is None or t[0] != "pcall" or not (isinstance(t[1], tuple) and t[1][0] == "meth" and t[1][2] == "decode"):
+                return False
+            inner = t[1][1]
+            if inner[0] != "pcall" or not (isinstance(inner[1], tuple) and inner[1][0] == "meth" and inner[1][2] == "encode"):
+                return False
+            args = list(inner[2]) + [val for (_k, val) in (inner[3] or ())]
+            return any(a[0] == "const" and a[1] in LENIENT for a in args)
+        evm = _evm(repo, target)
+        nret = 0
+        for (pth, st) in evm.run(limit=4000):
+            if pth[-1][0] != evm.cfg.exit.id:
+                continue
+            nret += 1
+            ok = sendable(st.ret)
+            if not ok:
+                ob.violation(target, target.node, f"the error text of a remote failure is returned as `{_showm(st.ret)[:60] if st.ret else None}` without being made encodable: a message holding a "
+                                                  "lone surrogate makes `channel.close(errortext)` raise in the worker, the channel stays open and the peer never gets RemoteError",
+                             construct="error text not sanitised")
+                break
+        ob.site(target, target.node, "every error text is passed through encode(.., <lenient handler>).decode(..)", returning_paths=nret)
+        ob.require(nret >= 1, f"{target.short}: no returning path")
